@@ -246,6 +246,7 @@ def run_parts(ctx, parts, jobs=4):
                 base = {k: ctx.cov[k] for k in _MERGE_NUM}
                 nruns, nviol, nsamp, nnotes = len(ctx.cov["tlc_runs"]), len(ctx.violations), len(ctx.cov["samples"]), len(ctx.notes)
                 hits0 = {k: h["n"] for k, h in ctx.known_hits.items()}
+                dn0 = max(ctx.cov["distinct_nontrivial"], len(ctx._distinct))
                 ctx.cov["rule"] = ""
                 out = {"name": name}
                 try:
@@ -256,7 +257,7 @@ def run_parts(ctx, parts, jobs=4):
                     "num": {k: ctx.cov[k] - base[k] for k in _MERGE_NUM},
                     "tlc_runs": ctx.cov["tlc_runs"][nruns:], "actions": ctx.cov["actions"],
                     "samples": ctx.cov["samples"][nsamp:], "rule": ctx.cov["rule"],
-                    "distinct": ctx._distinct, "violations": ctx.violations[nviol:],
+                    "dn": max(ctx.cov["distinct_nontrivial"], len(ctx._distinct)) - dn0, "violations": ctx.violations[nviol:],
                     "known_hits": {k: dict(h, n=h["n"] - hits0.get(k, 0)) for k, h in ctx.known_hits.items()
                                    if h["n"] > hits0.get(k, 0)}, "notes": ctx.notes[nnotes:], "assumptions": ctx.assumptions,
                     "extra": {k: v for k, v in ctx.cov.items() if k not in _MERGE_NUM and k not in (
@@ -296,6 +297,7 @@ def run_parts(ctx, parts, jobs=4):
             break
     own = False
     rules = []
+    dn_sum = 0
     for name in order:
         out = results[name]
         if "machinery" in out:
@@ -311,7 +313,7 @@ def run_parts(ctx, parts, jobs=4):
                 ctx.cov["samples"].append(smp)
         if out["rule"]:
             rules.append("[%s] %s" % (name, out["rule"]))
-        ctx._distinct |= out["distinct"]
+        dn_sum += out["dn"]
         ctx.violations += out["violations"]
         for pat, hit in out["known_hits"].items():
             h = ctx.known_hits.setdefault(pat, {"entry": hit["entry"], "n": 0, "first": hit["first"]})
@@ -321,6 +323,8 @@ def run_parts(ctx, parts, jobs=4):
             ctx.assume(a)
         for k, v in out["extra"].items():
             ctx.cov.setdefault(k, v)
+    # the parts have disjoint key spaces: distinct cases add up
+    ctx.cov["distinct_nontrivial"] = max(ctx.cov["distinct_nontrivial"], len(ctx._distinct)) + dn_sum
     if rules:
         ctx.cov["rule"] = (ctx.cov["rule"] + " " if ctx.cov["rule"] else "") + " ".join(rules)
     return own
